@@ -63,6 +63,12 @@ CLAIMED["C20"] = ("other",
     "Trusted: govalidator rejects a nil pointer tagged required and visits nested structs. Not decided: value validators (host/port/url), non-nil-dereference start-up failures.",
     "DESIGN.md §4 C20")
 
+CLAIMED["C07"] = ("other",
+    "linear-form value numbering on go/ssa (polynomial forms of the balance written back per reaching definition), enum-set dataflow over the action/type switch, edge-relation facts for the clamp, definite-assignment and dominance rules",
+    "Decides the server's arithmetic symbolically for all amounts and balances at once (no execution): for every reaching definition of the balance written to the database and every (Requested-Action, CC-Request-Type) value possible on its path, the polynomial written equals the statement's equation (balance + refund, balance - used, balance - grant, unchanged); the grant answered is the value subtracted and is min(request, balance) by edge relations; the final-unit indication is set exactly on request > balance; the ids are echoed on every path to Marshal; the unknown-account edge cannot reach the write-back; the write-back dominates the answer. The running balance over a sequence then follows by induction, which is not itself run.",
+    "Assumes integer conversions are identities (amounts < 2^63) and stored balances are non-negative decimal strings; MongoDB and go-diameter trusted.",
+    "DESIGN.md §4 C07")
+
 # id -> reason, for properties not (yet) claimed
 NOT_APPLICABLE = {
 }
